@@ -18,6 +18,8 @@ func CompileGlobs(globs []string) (*regexp.Regexp, error) {
 
 	var pattern strings.Builder
 	pattern.WriteRune('^')
+	// Group the alternation so that both anchors apply to every pattern.
+	pattern.WriteString("(?:")
 	for i, g := range globs {
 		if i > 0 {
 			pattern.WriteRune('|')
@@ -58,6 +60,7 @@ func CompileGlobs(globs []string) (*regexp.Regexp, error) {
 		}
 		pattern.WriteRune(')')
 	}
+	pattern.WriteRune(')')
 	pattern.WriteRune('$')
 
 	return regexp.Compile(pattern.String())
